@@ -36,10 +36,18 @@ def bounds(tier):
     return {"max_pos": 4, "max_neg": 4, "km": km, "grids": ["irregular", "dyadic", "int"], "intervals": INTERVALS}
 
 
+LARGE = [(200000, 150000), (70001, 0), (0, 99999)]
+
+
 def work(tier, seed):
     b = bounds(tier)
-    return [{"blocks": [list(x) for x in bl], "grid": g}
-            for bl in ot.order_types(b["max_pos"], b["max_neg"], 1, 1) for g in b["grids"]]
+    items = [{"blocks": [list(x) for x in bl], "grid": g}
+             for bl in ot.order_types(b["max_pos"], b["max_neg"], 1, 1) for g in b["grids"]]
+    # large easy counts: tolerances that are relative to a count only bite there
+    for k, m in LARGE:
+        for bl in ot.order_types(2, 2, 2, 2, tie_free=True)[:3]:
+            items.append({"blocks": [list(x) for x in bl], "grid": "irregular", "large": [k, m]})
+    return items
 
 
 def run(item, ctx, tier, seed):
@@ -52,20 +60,32 @@ def run(item, ctx, tier, seed):
     Tarr = np.array(T)
     lo, hi = min(vals), max(vals)
     scale = max(abs(lo), abs(hi), 1.0)
+    km_menu = [tuple(x) for x in b["km"]] if "large" not in item else [tuple(item["large"])]
     for cfg in ot.CFGS:
         sc, ec = cfg
-        for k, m in [tuple(x) for x in b["km"]]:
+        for k, m in km_menu:
             for variant in ("distinct", "tied"):
                 if variant == "tied" and max(k, m) < 2:
                     continue
-                up = [hi + 10 + (i if variant == "distinct" else 0) for i in range(max(k, m))]
-                dn = [lo - 10 - (i if variant == "distinct" else 0) for i in range(max(k, m))]
-                if sc == "pos":
-                    mpos, mneg = pos + up[:k], neg + dn[:m]
+                if "large" in item and variant == "distinct":
+                    continue
+                if "large" in item:
+                    up, dn = np.full(max(k, m), hi + 10.0), np.full(max(k, m), lo - 10.0)
+                    P, N = np.array(pos, dtype=float), np.array(neg, dtype=float)
+                    if sc == "pos":
+                        mpos, mneg = np.concatenate([P, up[:k]]), np.concatenate([N, dn[:m]])
+                    else:
+                        mpos, mneg = np.concatenate([P, dn[:k]]), np.concatenate([N, up[:m]])
                 else:
-                    mpos, mneg = pos + dn[:k], neg + up[:m]
+                    up = [hi + 10 + (i if variant == "distinct" else 0) for i in range(max(k, m))]
+                    dn = [lo - 10 - (i if variant == "distinct" else 0) for i in range(max(k, m))]
+                    if sc == "pos":
+                        mpos, mneg = pos + up[:k], neg + dn[:m]
+                    else:
+                        mpos, mneg = pos + dn[:k], neg + up[:m]
                 case = {"blocks": item["blocks"], "grid": item["grid"], "pos": pos, "neg": neg, "cfg": cfg,
-                        "easy": [k, m], "materialised_pos": mpos, "materialised_neg": mneg}
+                        "easy": [k, m], "materialised_pos": mpos if "large" not in item else f"pos + {k} extremes",
+                        "materialised_neg": mneg if "large" not in item else f"neg + {m} extremes"}
                 ok, sv = guarded(ctx, "construct-virtual", case, Scores, pos, neg, nb_easy_pos=k, nb_easy_neg=m,
                                  score_class=sc, equal_class=ec)
                 ok2, sm = guarded(ctx, "construct-materialised", case, Scores, mpos, mneg, score_class=sc,
@@ -99,12 +119,19 @@ def run(item, ctx, tier, seed):
                             ctx.fail("auc-virtual-equals-materialised", dict(case, lower=lo_i, upper=hi_i, **kw),
                                      observed=av, expected=am)
                 # ---- thresholds at targets
-                if variant == "tied":
+                if variant == "tied" and "large" not in item:
                     continue
                 for metric in METRICS:
                     rel = relevant(metric, pos, neg)
-                    n = len(relevant(metric, mpos, mneg))
-                    targets = np.array(sorted(ot.target_alphabet(n, seed)))
+                    n = len(mpos) if metric in ("tpr", "fnr") else len(mneg) if metric in ("tnr", "fpr") else len(mpos) + len(mneg)
+                    if "large" in item:
+                        # targets that land among the few scored samples, on and off the count grid
+                        hard = len(rel)
+                        base = {"tpr": k, "fnr": 0, "tnr": m, "fpr": 0, "topr": k if sc == "pos" else k, "tonr": m}[metric]
+                        targets = np.array(sorted({(base + j + f) / n for j in range(hard + 1) for f in (0.0, 0.1, 0.5, 0.9)
+                                                   if 0 <= (base + j + f) / n <= 1}))
+                    else:
+                        targets = np.array(sorted(ot.target_alphabet(n, seed)))
                     ok, (tv, tm) = guarded(
                         ctx, "threshold", dict(case, metric=metric),
                         lambda: (np.asarray(getattr(sv, "threshold_at_" + metric)(targets), dtype=float),
